@@ -4,7 +4,6 @@ use std::str;
 use std::env;
 use url::Url;
 verus! {
-#[verifier::external_type_specification] #[verifier::external_body] pub struct ExUrl(Url);
 //@@ include url_prelude
 //@@ item src/request/proxy.rs struct ProxySettings vis=pub
 //@@ end
